@@ -20,10 +20,10 @@ for b in selftest/benign/*.patch selftest/benign/*.diff; do
   for f in $files; do
     case $f in
       *retries*) props="$props C14";; *caching*) props="$props C12 C13";; *throttling*) props="$props C15";; *timeouted*) props="$props C16";;
-      *queue*) props="$props C17";; *access*) props="$props C02 C06 C07 C08 C11 C01 C09 C10";; *tasks*) props="$props C02 C06 C07 C03";;
-      *disposables*) props="$props C08 C02 C01";; *context/state*) props="$props C01 C03";; *metrics*) props="$props C09 C10 C19";;
-      *validation*) props="$props C05 C04 C20";; *structure*) props="$props C04 C05";; *missing*) props="$props C20";;
-      *asynchrony*|*tracing*|*mimic*) props="$props C18";;
+      *queue*) props="$props C17";; *access*) props="$props C02 C06 C07 C08 C11 C01 C09 C10";; *tasks*) props="$props C02 C06 C07 C03 C08";;
+      *disposables*) props="$props C08 C02 C01 C07";; *context/state*) props="$props C01 C03";; *metrics*) props="$props C09 C10 C19";;
+      *validation*) props="$props C05 C04 C20";; *state/attributes*) props="$props C05";; *structure*) props="$props C04 C05";; *missing*) props="$props C20";;
+      *asynchrony*|*tracing*) props="$props C18";; *mimic*) props="$props C18 C12 C15 C16";;
     esac
   done
   for p in $props; do
